@@ -767,7 +767,9 @@ impl Property for C20 {
         "Seeded (schema set x permutation of the input list x pending-pick sequence). Sets of 2-5 named schemas over a name graph \
          (chain, star, cycle, random, sparse; cross-namespace references by full name and same-namespace short names; definitions \
          nested in one input and referenced from a sibling; self reference; injected faults: dangling reference, two inputs with \
-         the same full name, nested definition clashing with an input, two nested definitions clashing). The simulator - not \
+         the same full name, nested definition clashing with an input, two nested definitions clashing; references to the null \
+         namespace with a leading dot; inputs that are a fixed with a logical type; inputs called like a kind of schema; valid \
+         defaults on top-level record fields, also of reference type). The simulator - not \
          RandomState - picks the next pending input through hook H2. Each case runs the baseline schedule (identity order, always the \
          first pending name) and the drawn schedule, judges both against the MultiParseModel computed from the JSON alone, compares \
          the returned schemas per input across the two schedules, and encodes a generated value with one schedule's schemas and \
@@ -790,12 +792,12 @@ impl Property for C20 {
     }
     fn runs(&self, tier: Tier) -> u64 {
         match tier {
-            Tier::Quick => 40_000,
+            Tier::Quick => 300_000,
             Tier::Thorough => 3_000_000,
         }
     }
     fn required_probes(&self) -> Vec<&'static str> {
-        vec!["probe.ref_to_type_nested_in_another_input", "probe.both_orderings_ok", "probe.cross_ordering_data_check"]
+        vec!["probe.ref_to_type_nested_in_another_input", "probe.both_orderings_ok", "probe.cross_ordering_data_check", "probe.field_default_on_input"]
     }
 
     fn generate(&self, rng: &mut Rng, _run: u64, _tier: Tier) -> Option<Case> {
